@@ -319,9 +319,19 @@ fn gen_pair(t: &mut Tape) -> Pair {
         item(t, &mut bs, &mut be, &mut forms, &mut k, wrap != 1 && !(in_loop));
         match wrap {
             1 => {
-                forms.push("inside a branch");
-                body_s.push_str(&format!("    if (n > 2) {{\n{bs}    }}\n"));
-                body_e.push_str(&format!("    if (n > 2) {{\n{be}    }}\n"));
+                if t.chance(128) {
+                    // an `if` with an `else` branch, each holding sugar of its own
+                    let mut bs2 = String::new();
+                    let mut be2 = String::new();
+                    item(t, &mut bs2, &mut be2, &mut forms, &mut k, false);
+                    forms.push("inside both branches of an if/else");
+                    body_s.push_str(&format!("    if (n > 2) {{\n{bs}    }} else {{\n{bs2}    }}\n"));
+                    body_e.push_str(&format!("    if (n > 2) {{\n{be}    }} else {{\n{be2}    }}\n"));
+                } else {
+                    forms.push("inside a branch");
+                    body_s.push_str(&format!("    if (n > 2) {{\n{bs}    }}\n"));
+                    body_e.push_str(&format!("    if (n > 2) {{\n{be}    }}\n"));
+                }
             }
             _ => {
                 body_s.push_str(&bs);
